@@ -95,6 +95,7 @@ type Exec struct {
 	rootArgs   map[string]Val
 	writeCache map[*ssa.Function]*writeSet
 	recDefs    map[string]*recDef
+	hverCounter int
 	smallCache map[*ssa.Function]bool
 	unfolded   map[string]bool
 	pendingFacts []string
